@@ -233,6 +233,9 @@ func (x *g) field(name string, inTable bool) Field {
 			}
 		}
 	}
+	if inTable && x.r.Chance(1, 15) { // legacy array form `name(0..) <: T`
+		f.Array, f.Attribs = true, nil
+	}
 	if x.k.Level >= 7 {
 		f.Annos = x.annos(1, 6)
 		if len(f.Annos) == 0 && x.r.Chance(1, 8) {
